@@ -921,6 +921,16 @@ theorem C14_guards_cover :
     reportSites.map (fun s => (s.1, s.2.1)) = guardTable.flatMap fun f => f.2.map fun g => (f.1, g.1) := by
   decide
 
+/-- `get_dim_units`, compiled from its statements (`out = []; for dim in data_array.dimensions: if …: out.append(…)
+elif …; return out`), returns the model's `getDimUnits` for every array: the value the read `refs_units` stands for in
+`C14_guards_tag` / `C14_guards_multi_tag` (one such list per referenced array) -/
+theorem C14_guards_get_dim_units (da : DataArray) :
+    Nix.PyGuard.collected getDimUnitsBranches (da.dims.map dimUnitEnv) = .ok ((getDimUnits da).map .str) ∧
+    getDimUnitsLoop = ("dim", "data_array.dimensions") := by
+  refine ⟨?_, by decide⟩
+  rw [collected_getDimUnits]
+  rfl
+
 /-- the locals the compiled conditions read, and the statements that assign them: `positions` / `file_created_at` are
 the read, or `None` when the read raises (what `linkedVal none` / `ofOptInt none` stand for); `posdim` / `extlen` /
 `extdim` the lengths the environments give them (`dimVal` = `secondDim`); `refs_units` the dimension units of every
